@@ -2,13 +2,14 @@
 (* Constant definitions for the TLC configurations of HeadSync. *)
 EXTENDS HeadSync
 
-P2   == {"p1", "p2"}
-PS2  == "p1" :> <<"p2">> @@ "p2" :> <<"p1">>
-P3   == {"p1", "p2", "p3"}
-PS3  == "p1" :> <<"p2", "p3">> @@ "p2" :> <<"p1", "p3">> @@ "p3" :> <<"p1", "p2">>
-\* a client with two nodes that do not talk to each other through this component
-PS3c == "p1" :> <<"p2", "p3">> @@ "p2" :> <<"p1">> @@ "p3" :> <<"p1">>
-
+\* every peer is responsible for every other one (some fixed order)
+PSAll == [p \in Peers |-> CHOOSE s \in [1..(Cardinality(Peers) - 1) -> Peers \ {p}] :
+                                   \A a, b \in DOMAIN s : a # b => s[a] # s[b]]
+\* string-valued constants for generation / trace validation
+P2    == {"p1", "p2"}
+P3    == {"p1", "p2", "p3"}
+PS2   == "p1" :> <<"p2">> @@ "p2" :> <<"p1">>
+PS3   == "p1" :> <<"p2", "p3">> @@ "p2" :> <<"p1", "p3">> @@ "p3" :> <<"p1", "p2">>
 None  == {}
 AclS  == {"acl"}
 KvS   == {"kv"}
@@ -19,7 +20,12 @@ C1    == {"c1"}
 C2    == {"c1", "c2"}
 
 B(cr, ed, de, fl, rs) == [cr |-> cr, ed |-> ed, de |-> de, fl |-> fl, rs |-> rs]
-Bq  == B(2, 2, 1, 1, 1)
-Bt  == B(3, 3, 1, 2, 1)
-Bl  == B(1, 2, 1, 1, 0)
+Bq   == B(1, 2, 1, 1, 1)
+Bt   == B(2, 2, 1, 1, 1)
+Bt2  == B(2, 2, 1, 0, 0)
+Bs   == B(1, 2, 0, 1, 0)
+Bl   == B(1, 2, 1, 0, 0)
+Bg   == B(3, 4, 1, 2, 1)
+Bg3  == B(4, 5, 2, 2, 1)
+Sym  == Permutations(Trees) \cup Permutations(Changes) \cup Permutations(Peers)
 =============================================================================
